@@ -97,7 +97,7 @@ impl Property for C05 {
         "C05"
     }
     fn rule(&self) -> String {
-        "cases: call histories = an initial record (Builder with arbitrary method calls, or a harness-signed record decoded at sequence-number and size boundaries) followed by 0..12 calls drawn from all 22 public mutators plus re-decode and clone, with arbitrary arguments (typed values, well-formed / ill-typed / malformed raw RLP, reserved keys through the generic entry points, keys up to 400 bytes), signed with the record's own key or another key of the same scheme; families k256, rust-secp256k1, ed25519, CombinedKey (both variants) and three custom schemes (variable-length signatures of 64..70 bytes, long signatures of 64..322 bytes, a toy scheme with ~21-byte records). Bounded-exhaustive part: all sequences of length <= 2 (quick) / <= 3 (thorough) over an alphabet of 48 concrete operations from 5 initial records. Oracle on every record obtained with Ok: independent signature verification over the reported fields under the key stored in the record, verify(), id = v4, node id = keccak of the key, <= 300 bytes, accepted again by the decoder (and by the reference decoder) with identical fields; after an update the key entry and node id are the signing key's. Non-trivial: >= 2 successful updates and at least one of: signer other than the initial key, reserved key through a generic entry point, result >= 292 bytes, seq >= 2^64-2. Distinct by hash of the history.".into()
+        "cases: call histories = an initial record (Builder with arbitrary method calls, or a harness-signed record decoded at sequence-number and size boundaries) followed by 0..12 calls drawn from all 22 public mutators plus re-decode and clone, with arbitrary arguments (typed values, well-formed / ill-typed / malformed raw RLP, reserved keys through the generic entry points, keys up to 400 bytes), signed with the record's own key or another key of the same scheme; families k256, rust-secp256k1, ed25519, CombinedKey (both variants) and three custom schemes (variable-length signatures of 64..70 bytes, long signatures of 64..322 bytes, a toy scheme with ~21-byte records). Bounded-exhaustive part: all sequences of length <= 2 (quick) / <= 3 (thorough) over an alphabet of 52 concrete operations from 5 initial records. Oracle on every record obtained with Ok: independent signature verification over the reported fields under the key stored in the record, verify(), id = v4, node id = keccak of the key, <= 300 bytes, accepted again by the decoder (and by the reference decoder) with identical fields; after an update the key entry and node id are the signing key's. Non-trivial: >= 2 successful updates and at least one of: signer other than the initial key, reserved key through a generic entry point, result >= 292 bytes, seq >= 2^64-2. Distinct by hash of the history.".into()
     }
     fn assumptions(&self) -> Vec<String> {
         vec![
@@ -116,7 +116,7 @@ impl Property for C05 {
         }
     }
     fn exhaustive_part(&self, quick: bool) -> Option<String> {
-        Some(format!("all operation sequences of length <= {} over the operation alphabet (48 concrete calls) from 5 initial records, for {} families", if quick { 2 } else { 3 }, if quick { 3 } else { 6 }))
+        Some(format!("all operation sequences of length <= {} over the operation alphabet (52 concrete calls) from 5 initial records, for {} families", if quick { 2 } else { 3 }, if quick { 3 } else { 6 }))
     }
     fn enumerate(&self, quick: bool) -> Box<dyn Iterator<Item = Case> + Send + '_> {
         if quick {
